@@ -268,6 +268,12 @@ pub struct GenCfg {
     /// a module may define a top-level type whose name equals the name the backend derives for
     /// an anonymous inner type of ANOTHER module (Cell + field id -> CellId)
     pub echo_inner_names: bool,
+    /// more deliberate (direct and mutual) recursion through OPTIONAL members
+    pub recursion_bias: bool,
+    /// append definitions that compile with WARNINGS (top-level REAL, inverted range, dangling
+    /// references, SEQUENCE OF values whose element type is missing, unresolvable selection
+    /// types): C11 compares the multiset of warnings too
+    pub warnful: bool,
 }
 
 impl GenCfg {
@@ -288,6 +294,8 @@ impl GenCfg {
             classes: false,
             real_components: false,
             echo_inner_names: false,
+            recursion_bias: false,
+            warnful: false,
         }
     }
 }
@@ -694,7 +702,7 @@ impl<'a> G<'a> {
         for k in 0..n {
             let id = self.comp_ident(&mut used);
             // deliberate direct recursion: an OPTIONAL member of the owner's own type
-            if depth == 0 && !recursion_done && !owner.is_empty() && self.rng.chance(1, 12) {
+            if depth == 0 && !recursion_done && !owner.is_empty() && self.rng.chance(1, if self.cfg.recursion_bias { 3 } else { 12 }) {
                 recursion_done = true;
                 // the owner itself (direct recursion) or any local type (mutual recursion
                 // over the OPTIONAL member when that type refers back)
@@ -1050,6 +1058,27 @@ pub fn generate(rng: &mut Rng, cfg: &GenCfg) -> ModuleSet {
                 });
             }
         }
+        if cfg.warnful {
+            let st = p.stem.trim_end_matches('-').to_string();
+            let lo = st.to_lowercase();
+            let pool: Vec<(String, AKind, String)> = vec![
+                (format!("{st}Ids"), AKind::Type, format!("{st}Ids ::= SEQUENCE OF {st}Missing")),
+                (format!("{lo}-ids"), AKind::Value, format!("{lo}-ids {st}Ids ::= {{ 1, 2 }}")),
+                (format!("{st}Real"), AKind::Type, format!("{st}Real ::= REAL")),
+                (format!("{st}Inv"), AKind::Type, format!("{st}Inv ::= INTEGER (5..1)")),
+                (format!("{st}Dangling"), AKind::Type, format!("{st}Dangling ::= SEQUENCE {{ a {st}Missing OPTIONAL, b BOOLEAN }}")),
+                (format!("{st}Sel"), AKind::Type, format!("{st}Sel ::= alt < {st}Nowhere")),
+            ];
+            for (name, kind, text) in pool {
+                // the value needs its type: keep the first two together
+                if g.rng.chance(1, 2) || (name.ends_with("-ids") && assigns.iter().any(|a: &Assign| a.name.ends_with("Ids"))) {
+                    if name.ends_with("-ids") && !assigns.iter().any(|a: &Assign| a.name.ends_with("Ids")) {
+                        continue;
+                    }
+                    assigns.push(Assign { name, kind, text, refs: vec![], comment: String::new() });
+                }
+            }
+        }
         let imports: Vec<Import> = ctx
             .used_imports
             .iter()
@@ -1135,7 +1164,8 @@ pub fn sibling(set: &ModuleSet, rng: &mut Rng) -> ModuleSet {
         .to_string();
         m.ext_implied = !m.ext_implied;
         for a in &mut m.assigns {
-            if a.kind == AKind::Type && a.refs.is_empty() && rng.chance(1, 2) {
+            if a.kind == AKind::Type && (a.refs.is_empty() && rng.chance(1, 2) || rng.chance(1, 5)) {
+                a.refs.clear();
                 a.text = format!("{} ::= SEQUENCE {{ sib{} INTEGER (0..{}), alt BOOLEAN OPTIONAL }}", a.name, rng.below(9), rng.range(1, 999));
             }
         }
